@@ -206,6 +206,43 @@ class Run:
                 self.broken.append({"what": "property theorem %s no longer checks" % nm, "detail": err[-2500:]})
         return ok_all
 
+    # ------------------------------------------------------------------ counter-models from Coq, replayed on the implementation
+    def coq_eval(self, name, text, timeout=600):
+        """compile a scratch .v in the work dir and return coqc's stdout (used to print failing entries)"""
+        f = os.path.join(self.dir, name + ".v")
+        open(f, "w").write(text)
+        ok, out, err, dt = self.coqc(f, timeout)
+        return out if ok else ""
+
+    def tag_search(self, coq_text, bins, cls="selection"):
+        """coq_text must `Eval vm_compute` a list (entry name, option (list (option Z))) of entries whose theorem fails,
+        with the values the SPECIFICATION prescribes on the tag inputs (component i of argument a = 10(a+1)+i+1).
+        Each is replayed on the real instantiation (trace binary --replay); disagreements become failing inputs."""
+        out = self.coq_eval("Fail_" + self.pid, coq_text)
+        out = re.sub(r"\s+", " ", out)
+        found = []
+        for m in re.finditer(r'\("([A-Za-z0-9_]+)",\s*(Some \[([^\]]*)\]|None)\)', out):
+            name, spec = m.group(1), m.group(3)
+            exp = None
+            if spec is not None:
+                exp = [None if "None" in x else int(re.sub(r"[^0-9-]", "", x)) for x in spec.split(";") if x.strip()]
+            found.append((name, exp))
+        self.cov["model_level_failing_entries"] = [n for n, _ in found][:50]
+        fails = []
+        for name, exp in found[:12]:
+            got = None
+            for b in bins:
+                rc, o, e, dt = sh([b, "--replay", name], timeout=60)
+                mm = re.search(r"REPLAY \S+ outputs=\[([^\]]*)\]", o)
+                if mm:
+                    got = [float(x) for x in mm.group(1).split(";") if x.strip()]; break
+            if got is None or exp is None or any(x is None for x in exp):
+                continue
+            if len(got) != len(exp) or any(abs(g - x) > 0 for g, x in zip(got, exp)):
+                fails.append({"fn": name, "class": cls, "input": "tag inputs: component i of argument a = 10(a+1)+i+1", "expected": str(exp), "got": str(got),
+                              "line": "model and implementation both computed; specification differs"})
+        return fails
+
     # ------------------------------------------------------------------ oracle programs
     def build_cpp(self, src, exe, flags=(), std="gnu++17", opt="-O1"):
         cmd = [CXX, "-std=" + std, opt, "-ffp-contract=off", "-w", "-I" + REPO, "-I" + os.path.join(VERIF, "tools")] + list(flags) + [src, "-o", exe]
